@@ -1130,6 +1130,37 @@ impl IPDiversityEnforcer {
     }
 }
 
+/// Deterministic-simulation accessors (only with feature `verif-hooks`).
+#[cfg(feature = "verif-hooks")]
+impl IPDiversityEnforcer {
+    /// Every per-level counter currently tracked, as ("level:prefix", count).
+    pub fn verif_counts(&self) -> std::collections::BTreeMap<String, usize> {
+        let mut out = std::collections::BTreeMap::new();
+        for (k, v) in self.subnet_64_counts.iter() {
+            out.insert(format!("v6/64:{k}"), *v);
+        }
+        for (k, v) in self.subnet_48_counts.iter() {
+            out.insert(format!("v6/48:{k}"), *v);
+        }
+        for (k, v) in self.subnet_32_counts.iter() {
+            out.insert(format!("v6/32:{k}"), *v);
+        }
+        for (k, v) in self.ipv4_32_counts.iter() {
+            out.insert(format!("v4/32:{k}"), *v);
+        }
+        for (k, v) in self.ipv4_24_counts.iter() {
+            out.insert(format!("v4/24:{k}"), *v);
+        }
+        for (k, v) in self.ipv4_16_counts.iter() {
+            out.insert(format!("v4/16:{k}"), *v);
+        }
+        for (k, v) in self.asn_counts.iter() {
+            out.insert(format!("asn:{k}"), *v);
+        }
+        out
+    }
+}
+
 #[cfg(test)]
 impl IPDiversityEnforcer {
     pub fn config(&self) -> &IPDiversityConfig {
